@@ -235,3 +235,81 @@ func H_select_pair() {
 	nd_assert(i1 == 0 && i2 == 0 && ok2 && y == v, "C10.select.pair.commit")
 	nd_reach("C10.select.pair")
 }
+
+// two mirrored selects over a pair of unbuffered channels, one of them carrying an
+// additional nil-channel case (which can never fire): a send and a receive on the
+// same channel are pending together, so exactly one pair must communicate
+func selectMirror(nilInA, nilInB bool) {
+	c1, c2 := NewChan(8, 0), NewChan(8, 0)
+	var a1, a2, b1, b2, z int64
+	a1, b2 = 11, 22
+	ia, ib := -1, -1
+	nd_go(func() {
+		if nilInA {
+			ia, _ = Select(recvOp(nil, &z), sendOp(c1, &a1), recvOp(c2, &a2))
+			ia--
+		} else {
+			ia, _ = Select(sendOp(c1, &a1), recvOp(c2, &a2))
+		}
+	})
+	nd_go(func() {
+		if nilInB {
+			ib, _ = Select(recvOp(c1, &b1), sendOp(c2, &b2), sendOp(nil, &z))
+		} else {
+			ib, _ = Select(recvOp(c1, &b1), sendOp(c2, &b2))
+		}
+	})
+	dl := nd_join()
+	nd_assert(!dl, "C10.select.mirror.deadlock")
+	nd_assert((ia == 0 && ib == 0 && b1 == 11 && a2 == 0) || (ia == 1 && ib == 1 && a2 == 22 && b1 == 0), "C10.select.mirror.commit")
+	nd_reach("C10.select.mirror")
+}
+
+func H_select_mirror()      { selectMirror(false, false) }
+func H_select_mirror_nilA() { selectMirror(true, false) }
+func H_select_mirror_nilB() { selectMirror(false, true) }
+
+// close wakes every receiver blocked in a select on the channel (n sleepers)
+func closeWakesSelects(n int, capacity int) {
+	ch := NewChan(8, capacity)
+	woken := 0
+	for i := 0; i < n; i++ {
+		nd_go(func() {
+			// the compiler hands Select a zero-initialised temporary (Builder.Alloc);
+			// the runtime's contract is to leave it untouched on a closed channel
+			var g int64
+			isel, ok := Select(recvOp(ch, &g))
+			if isel == 0 && !ok && g == 0 {
+				woken++
+			}
+		})
+	}
+	nd_go(func() { ChanClose(ch) })
+	dl := nd_join()
+	nd_assert(!dl, "C10.select.closewakes.deadlock")
+	nd_assert(woken == n, "C10.select.closewakes.all")
+	nd_reach("C10.select.closewakes")
+}
+
+func H_select_closewakes2() { closeWakesSelects(2, 0) }
+func H_select_closewakes3() { closeWakesSelects(3, 0) }
+
+// close wakes every receiver blocked in a plain receive (three sleepers)
+func H_chan_close_wakes3() {
+	ch := NewChan(8, 0)
+	woken := 0
+	r := func() {
+		v, ok := recvv(ch)
+		if !ok && v == 0 {
+			woken++
+		}
+	}
+	nd_go(r)
+	nd_go(r)
+	nd_go(r)
+	nd_go(func() { ChanClose(ch) })
+	dl := nd_join()
+	nd_assert(!dl, "C10.close3.deadlock")
+	nd_assert(woken == 3, "C10.close3.all")
+	nd_reach("C10.close3")
+}
